@@ -222,3 +222,48 @@ class Retarget(Harness):
 
 
 HARNESSES = [Encode(), Retarget()]
+
+
+def prelude(tier):
+    """Stub-boundary validation.  The str / list-of-str entry points are driven symbolically through a stub (encoded_array.bytes/ord accept a
+    symbolic str whose characters are bytes 0..127).  What lies before that boundary - turning a real Python str into bytes - is exercised
+    here on CONCRETE probe strings run through the real, unstubbed library: alphabet letters in both cases and foreign characters incl. control
+    characters inside list elements and code points >= 128 / >= 256 that alias an alphabet letter modulo 256.  A deviation from the alphabet
+    specification is a real-run violation; this part is probing, not a solver verdict, and is reported as such in the evidence."""
+    import time
+    from bionumpy.encoded_array import as_encoded_array
+    t0 = time.time()
+    res = dict(obligations=0, discharged=0, queries=0, inconclusive=[], violations=[], samples=[])
+    n = 0
+    for name, alpha in ALPHABETS.items():
+        enc = get_enc(name)
+        a0, a1 = alpha[0], alpha[-1]
+        foreign = ["\n", "\t", "\0", " ", "\r", chr(127), chr(128), chr(233), chr(255), chr(256 + ord(a0)), chr(512 + ord(a1.lower())), chr(0x147), chr(0x131)]
+        probes = [a0, a1, a0.lower() + a1, a0 + a1 + a0]
+        for f in foreign:
+            probes += [f, a0 + f, f + a1, a0 + f + a1]
+        lists = [[a0, a1 + a0], [a0 + a1, "", a0]]
+        for f in foreign[:6] + foreign[9:]:
+            lists += [[a0 + f + a1, a0], [a0, f + a1], [a0 + a1, a1 + f]]
+        for data in probes + lists:
+            n += 1
+            flat = data if isinstance(data, str) else "".join(data)
+            ok = all(c.upper() in alpha or c in alpha for c in flat) and all(ord(c) < 128 for c in flat)
+            try:
+                r = as_encoded_array(data, enc)
+                dec = enc.decode(r)
+                got = dec.to_string() if isinstance(data, str) else [row.to_string() for row in dec]
+                outcome = ("ok", got)
+            except Exception as e:
+                outcome = ("raised", type(e).__name__)
+            exp = ("ok", data.upper() if isinstance(data, str) else [d.upper() for d in data]) if ok else ("raised", None)
+            good = (outcome == exp) if ok else outcome[0] == "raised"
+            if not good:
+                res["violations"].append(dict(obligation="str-entry-probe", inputs=dict(encoding=name, text=repr(data)), output=repr(outcome),
+                                              why=f"[real run, concrete probe of the str entry point] as_encoded_array({data!r}, {name}) gave {outcome}, "
+                                                  f"the alphabet {alpha!r} {'contains every character: expected ' + repr(exp[1]) if ok else 'does not contain every character: it must be refused'}"))
+                if len(res["violations"]) >= 5:
+                    break
+    res["solver_s"] = time.time() - t0
+    res["summary"] = f"str / list-of-str entry point probed on {n} concrete texts per run (control characters, code points >= 128 and >= 256): {len(res['violations'])} deviations"
+    return res
